@@ -63,7 +63,7 @@ def pgpy_cert(name, uid='Alice Example <alice@example.org>', created=T0, sigtime
     k = pgpy_secret(r)
     st = dt(sigtime if sigtime is not None else created + 1)
     can_sign = r['alg'] != 'ecdh'
-    usage = prefs.pop('usage', {KeyFlags.Sign, KeyFlags.Certify} if r['alg'] != 'rsa' else
+    usage = prefs.pop('usage', {KeyFlags.Sign, KeyFlags.Certify} if r['alg'] != 'rsa' or r.get('algid') == 3 else
                       {KeyFlags.Sign, KeyFlags.Certify, KeyFlags.EncryptCommunications, KeyFlags.EncryptStorage})
     if uid is not None and can_sign:
         u = pgpy.PGPUID.new(uid) if isinstance(uid, str) else uid
